@@ -162,6 +162,43 @@ def proxied_worker(args, scratch):
     return res
 
 
+def attest_worker(args, scratch):
+    """the real KeyKeeper's attestation requests (POST /secure-channel/key/<guid>/key-attestation) verified at the mock"""
+    import os
+    from .. import wsmock, shim as shimmod
+    res = {"evaluations": 0, "nontrivial": [], "samples": [], "counts": {}, "violations": []}
+    r = common.rng("c04-attest", args["tier"])
+    key_dir = os.path.join(scratch, "keys")
+    ws = wsmock.WsMock("168.63.129.16", 80, rng=r, key_dir=key_dir)
+    ws.version = "1.0"; ws.state_v1 = "Wireserver"
+    ws.gate_at = 1
+    sh = shimmod.Shim(scratch + "/shim", runtime="paused")
+    try:
+        sh.call("init", log_dir=scratch + "/logs", log_level="Info")
+        sh.call("key_keeper_start", base_url="http://168.63.129.16:80/", key_dir=key_dir, log_dir=scratch + "/logs", interval_ms=5)
+        for i in range(args["rounds"]):
+            if not ws.gate_reached.wait(20):
+                res.setdefault("inconclusive", []).append("key keeper stopped polling"); break
+            ws.latched = None      # the host forgot the latch: the guest must acquire and attest a new key
+            ws.release()
+        ws.gate_reached.wait(20)
+        attests = [u for u in ws.mock.snapshot() if u.target.endswith(b"/key-attestation")]
+        for u in attests:
+            res["evaluations"] += 1
+            verdict, detail = sig.verify(u, ws.issued)
+            res["counts"]["own:attestation:" + verdict] = res["counts"].get("own:attestation:" + verdict, 0) + 1
+            guid_in_url = u.target.split(b"/")[3].decode().lower()
+            if verdict not in ("ok", "ok-lenient") or detail[0] != guid_in_url:
+                res["violations"].append(["attestation-signature-%s" % verdict, {"head": u.raw_head.decode("latin-1"), "detail": str(detail)}])
+            else:
+                res["nontrivial"].append("attest-" + guid_in_url)
+        if not attests:
+            res.setdefault("inconclusive", []).append("no attestation request observed")
+    finally:
+        ws.close(); sh.close()
+    return res
+
+
 def route_equivalence(tier, rep):
     n = 4000 if tier == "quick" else 60000
     r = common.rng("c04-route", tier)
@@ -170,8 +207,9 @@ def route_equivalence(tier, rep):
         q, qfeat = gen_query(r)
         path = r.choice(PATHS)
         url = "http://168.63.129.16:80" + path + ("?" + q if q is not None else "")
-        hs = {k: v.strip() for k, v in gen_http.headers(r)}
-        hs.pop("Metadata", None)
+        hs = {k: v for k, v in gen_http.headers(r)}     # some values carry leading/trailing blanks (the agent itself sends 'Metadata: True ')
+        if r.random() < 0.3:
+            hs["Metadata"] = "True "
         method = r.choice(["GET", "POST", "PUT", "DELETE"])
         body = gen_http.body(r, 2000) if method in ("POST", "PUT") and r.random() < 0.8 else None
         key = "%064x" % r.getrandbits(256)
@@ -230,6 +268,7 @@ def run(tier, rep):
     args = [{"shard": i, "tier": tier, "requests": 700 if tier == "quick" else 9000} for i in range(shards)]
     for res in sandbox.run_many("vf.props.c04", "proxied_worker", args, workers=shards, timeout=1500):
         rep.merge_worker(res)
+    rep.merge_worker(sandbox.run("vf.props.c04", "attest_worker", {"tier": tier, "rounds": 40 if tier == "quick" else 400}, timeout=600))
     rep.assumptions += ["order of query pairs in the canonical string: (key,value) order and key+value-concatenation order both accepted; exact duplicate pairs once or as received",
                         "repeated header names: any of last/first/joined/each accepted (counted as ambiguous)",
                         "header values with bytes >= 0x80 are exercised by C13, not here"]
